@@ -65,7 +65,7 @@ def NAMES(channels=None):
 
 
 def WHOIS(nickmasks, server=None):
-    return request(Message(server, nickmasks))
+    return request(Message('WHOIS', server, nickmasks))
 
 
 def WHO(name=None, o=None):
